@@ -105,6 +105,8 @@ func rulesC10(c *Ctx) {
 	c12Unwrap(c)
 	// "… to decide whether the execution succeeded": the verdict the completion listeners are given
 	c16Executor(c)
+	// "sees the failed result and error as the execution's last result": what CopyWithResult hands on
+	execStateMethods(c, map[string]bool{"CopyWithResult": true})
 	c.Rule("fresh-executor")
 	c01Self(c)
 	buildCopiesConfig(c)
@@ -226,6 +228,13 @@ func c10Apply(c *Ctx) {
 					bad("unexpected effects after the fallback was applied")
 				}
 			default:
+				if debugLoadField {
+					for _, x := range tail {
+						if x.FnTerm != nil {
+							fmt.Printf("DEBUG listener=%s key=%q  called=%s key=%q same=%v\n", listener, listener.key, x.FnTerm, x.FnTerm.key, x.FnTerm == listener)
+						}
+					}
+				}
 				bad("path does not depend on whether a listener is set")
 			}
 			// output
